@@ -497,7 +497,12 @@ def interior_acceptance_all(cases, results, rep):
                      f"distance {float(RING_DELTA)} of it lies outside the domain and at least 28 lie strictly inside (exact signed CSG margin): it is an interior point, farther than the tolerance from the boundary",
                      where, finding=finding)
         # every probe (and the point itself) strictly outside the set: an exterior point
-        elif member == "0" and all(v_ <= 0 for v_ in vals) and sum(1 for v_ in vals if v_ < -MARGIN) >= len(vals) - 5:
+        elif (all(v_ < -MARGIN for v_ in vals) or
+              # a point ON a primitive's edge (zero signed margin) is judged only in the constructed shared-edge configuration,
+              # where the geometry is known (B covers A's side of the piece): in general a thin wedge or sliver of the set can
+              # pass between the 32 probes, so "no probe inside" does not make a corner or crossing point an exterior point
+              (cs.get("shared_cut") and i in cs.get("ring_rows", []) and member == "0" and all(v_ <= 0 for v_ in vals)
+               and sum(1 for v_ in vals if v_ < -MARGIN) >= len(vals) - 5)):
             # known: on a slanted shared edge the sharp `not in B` test of CutBoundaryDomain is decided by float32 rounding (the exact
             # position of the float point relative to B is within 1e-5 of the edge), so about half of those points are accepted;
             # on an axis-parallel dyadic configuration every float operation is exact, the unchanged code rejects, and accepting
